@@ -24,7 +24,14 @@ MONTHS = ["january", "february", "march", "april", "may", "june", "july", "augus
           "november", "december"]
 DAYS = ["monday", "tuesday", "wednesday", "thursday", "friday", "saturday", "sunday"]
 SEASON_OF_KEY = {"su": "summer", "sh": "shoulder", "wi": "winter"}     # the statement's naming of the cells
-DAYCLASS_OF_KEY = {"wd": ("weekday",), "we": ("weekend",), "fw": ("weekday", "weekend")}
+class _AnyDay(tuple):
+    """the day classes of a full-week component: weekday, weekend, and any other name a weekday map may use"""
+    def __contains__(self, name):
+        return True
+
+
+FULL_WEEK = _AnyDay(("weekday", "weekend"))
+DAYCLASS_OF_KEY = {"wd": ("weekday",), "we": ("weekend",), "fw": FULL_WEEK}
 UNSPLIT = "fw-su_sh_wi"
 DEFAULT_SEASON = ["winter", "winter", "shoulder", "shoulder", "shoulder", "summer", "summer", "summer", "summer",
                   "shoulder", "winter", "winter"]
@@ -183,7 +190,7 @@ def trim_oracle(run, out, flags_eff, season, week, dates, all_splits, case):
         if text == UNSPLIT:
             continue
         comps = read_split(text)
-        if not flags_eff[3] and any(days != ("weekday", "weekend") for _, days, _ in comps):
+        if not flags_eff[3] and any(days is not FULL_WEEK for _, days, _ in comps):
             fails.append(({"call": "_combinations", "broken": "forbidden split offered", "rule": "weekday/weekend"},
                           "%r separates weekdays from weekends although the settings forbid it" % text))
         for comp, days, seasons in comps:
@@ -735,10 +742,14 @@ def check_generated(run, info):
     return ok
 
 
+CASE_TYPE = {"check_trim": "trim_case", "check_route": "route_case", "check_route_parsed": "route_case",
+             "check_best": "best_case"}
+
+
 def run_cases(run, stream, terms, metas, check_fn, prelude="", shard=300):
     if not terms:
         return
-    bad = run.coq_cases(stream, IMPORTS, prelude, terms, check_fn, shard=shard)
+    bad = run.coq_cases(stream, IMPORTS, prelude, terms, check_fn, shard=shard, case_type=CASE_TYPE[check_fn])
     if bad is None:
         run.proof_ok = False
         return
@@ -784,7 +795,8 @@ def main():
                                                   "combo_days": info["combo_days"]}})
         check_generated(run, info)
         run.check_proofs("Properties/C13.v", ["Proofs/SplitsProofs.v"], generated=["Generated/SplitsGen.v"])
-        run.cov["exhaustive"] = ["all %d regenerated candidate splits (exact cover: vm_compute theorem + Python oracle)" % len(info["all_splits"]),
+        run.cov["exhaustive"] = False     # the finite parts below are enumerated completely; fits / criteria tables / date sets are sampled
+        run.cov["exhaustive_over"] = ["all %d regenerated candidate splits (exact cover: vm_compute theorem + Python oracle)" % len(info["all_splits"]),
                                  "all 16 allow-flag combinations on the main maps/date sets", "all 731 dates of 2023 and 2024"]
     ok_models = info is not None and run.ensure_models(["Model/SplitsRun.v", "Model/CasesLib.v"])
     if info is not None:
@@ -795,9 +807,13 @@ def main():
             replay(run, info, DailyModel, DailyReportingData, ellipsoid_split_filter)
         else:
             fits = stream_fits(run, info)
+            run.log("fits done: %d" % len(fits[0]))
             t_terms, t_meta, t_prelude = stream_trim(run, info, DailyModel, ellipsoid_split_filter)
+            run.log("trim stream done: %d cases" % len(t_terms))
             r_terms, r_meta = stream_route(run, info, DailyModel, DailyReportingData)
+            run.log("route stream done: %d cases" % len(r_terms))
             b_terms, b_meta = stream_best_stub(run, info, DailyModel)
+            run.log("best stream done: %d cases" % len(b_terms))
             t_terms += [t for t, _ in fits[0]]; t_meta += [c for _, c in fits[0]]
             r_terms += [t for t, _ in fits[1]]; r_meta += [c for _, c in fits[1]]
             b_terms += [t for t, _ in fits[2]]; b_meta += [c for _, c in fits[2]]
